@@ -15,17 +15,15 @@ def main():
 
     from src.ir import types as tp
 
-    def key(v):
-        # the table identifies a value by ==/hash: type objects compare structurally (two equal type parameters are one value),
-        # AST declarations by identity
-        return ("T", v) if isinstance(v, tp.Type) else ("I", id(v))
+    byid = {}
 
     def vid(v):
-        k = key(v)
-        if k not in vids:
-            vids[k] = "v%d" % len(vids)
+        # a value is identified by object identity, as the table does (a type parameter is often completed - bound, variance -
+        # after it has been added, so neither == nor hash identifies it over time)
+        if id(v) not in byid:
+            byid[id(v)] = "v%d" % len(byid)
             keep.append(v)          # keep the object alive so that ids are not reused
-        return vids[k]
+        return byid[id(v)]
     real_add, real_rem = Context._add_entity, Context._remove_entity
 
     def add(self, namespace, entity, name, value):
@@ -43,6 +41,7 @@ def main():
             ops.clear()
             vids.clear()
             keep.clear()
+            byid.clear()
             try:
                 p = genlib.generate(seed)
             except Exception:  # noqa: BLE001   (C18's business)
